@@ -14,6 +14,7 @@ if [ ! -d $L/repo ]; then
   git -C /repo worktree add -q --detach $L/repo HEAD || exit 2
 fi
 git -C $L/repo checkout -q -- .
+git -C $L/repo checkout -q --detach "$(git -C /repo rev-parse HEAD)"
 mkdir -p $L/sim
 rsync -a --delete /verif/sim/ $L/sim/ --exclude target
 rsync -a --delete /verif/vendor/ $L/vendor/
